@@ -2,11 +2,15 @@
 //@strip-pub
 // Unit `reopen`: the recovery job Database::open runs (the closure body of Database::run_recovery,
 // checked as a function of the values it captures, R11).
+//   C01/C08: the log is ANALYSED before anything is appended to it. The recovery transaction's own
+//   BEGIN record opens, in memory, a log block that is not in the file; an analysis that runs after
+//   it reads past the end of the file -- a log of more than one block (a committed DELETE of 100
+//   rows) could never be recovered, every open failed (fix 1a398bb).
 //   C08/C01: recovery is repeatable and a crash right after it loses nothing -- the log may only be
 //   dropped by a checkpoint (Pager::flush: dirty pages, header, THEN truncate; unit pagerio), and that
 //   checkpoint comes after the redo/undo pass and after the recovery transaction committed.
-//@trusted [env] run_analysis (unit analysis), WalRecuperator::run_recovery (unit recovery), Pager::flush (unit pagerio: checkpoint.*) are taken at their contracts; `applied(a)` / `committed(t)` are facts established only by the env calls that perform them (typestate)
-//@trusted [sub] `pager.write()` (exclusive lock on the shared pager) is the `&mut Pager` parameter itself (R8); `.map_err(box_err)` error boxing is dropped (env functions return the boxed error type)
+//@trusted [env] begin_transaction (appends the BEGIN record of the recovery transaction: an event on the pager), TransactionContext::create_child, run_analysis (unit analysis), WalRecuperator::run_recovery (unit recovery), Pager::flush (unit pagerio: checkpoint.*) are taken at their contracts; `applied(a)` / `committed(t)` are facts established only by the env calls that perform them (typestate)
+//@trusted [sub] `pager.write()` (exclusive lock on the shared pager) is the `&mut Pager` parameter itself (R8); `Self::begin_transaction(coordinator.clone(), pager.clone(), catalog.clone())` (clones of shared handles) is `begin_transaction(coordinator, pager, catalog)` on the same objects; `.map_err(box_err)` error boxing is dropped (env functions return the boxed error type)
 use vstd::prelude::*;
 
 verus! {
@@ -27,6 +31,8 @@ pub struct TransactionContext { _p: () }
 pub uninterp spec fn committed(t: &TransactionContext) -> bool;
 impl TransactionContext {
     #[verifier::external_body]
+    pub fn create_child(&self) -> JobResult<ChildCtx> { unimplemented!() }
+    #[verifier::external_body]
     pub fn commit_transaction(&self) -> (r: JobResult<()>) ensures r is Ok ==> committed(self) { unimplemented!() }
 }
 
@@ -39,7 +45,11 @@ impl WalRecuperator {
     pub fn run_recovery(&mut self, a: &AnalysisResult) -> (r: JobResult<()>) ensures r is Ok ==> applied(a) { unimplemented!() }
 }
 
-pub enum Ev { Analysis, Checkpoint, TruncateOnly }
+pub enum Ev { Analysis, Begin, Checkpoint, TruncateOnly }
+#[verifier::external_body]
+pub struct TransactionCoordinator { _p: () }
+#[verifier::external_body]
+pub struct Catalog { _p: () }
 #[verifier::external_body]
 pub struct Pager { _p: () }
 impl Pager {
@@ -59,16 +69,22 @@ impl Pager {
             [C08:recovery.checkpoint_after_recovery_commit] exists|t: &TransactionContext| #[trigger] committed(t),
         ensures final(self).events() == old(self).events().push(Ev::Checkpoint) { unimplemented!() }
 }
+#[verifier::external_body]
+pub fn begin_transaction(coordinator: &TransactionCoordinator, pager: &mut Pager, catalog: &Catalog) -> (r: JobResult<(TransactionContext, TransactionLogger)>)
+    ensures final(pager).events() == old(pager).events().push(Ev::Begin) { unimplemented!() }
+
 pub open spec fn no_bare_truncate(s: Seq<Ev>, from: int) -> bool { forall|i: int| from <= i < s.len() ==> !(#[trigger] s[i] is TruncateOnly) }
 
 //@fn crates/axmos-db/src/lib.rs | impl Database | run_recovery
-//@ arm /self\.task_runner\.run\(move \|ctx\| \{/ => fn recovery_job(child: ChildCtx, logger: TransactionLogger, pager: &mut Pager, tx_ctx: &TransactionContext) -> JobResult<()>
+//@ arm /self\.task_runner\.run\(move \|_ctx\| \{/ => fn recovery_job(coordinator: &TransactionCoordinator, pager: &mut Pager, catalog: &Catalog) -> JobResult<()>
+//@ sub /Self::begin_transaction\(coordinator\.clone\(\), pager\.clone\(\), catalog\.clone\(\)\)/ => begin_transaction(coordinator, pager, catalog)
 //@ sub /pager\.write\(\)/ => pager
 //@ sub /\.map_err\(box_err\)/ => 
 //@ ensures
 //@   [C08,C01:recovery.log_dropped_only_by_a_checkpoint] no_bare_truncate(final(pager).events(), old(pager).events().len() as int),
 //@   [C08,C01:recovery.ends_with_a_checkpoint] r is Ok ==> final(pager).events().len() > 0 && final(pager).events().last() is Checkpoint,
-//@   [C08:recovery.analysis_first] final(pager).events().len() > old(pager).events().len() ==> final(pager).events()[old(pager).events().len() as int] is Analysis,
+//@   [C08,C01:recovery.the_log_is_analysed_before_anything_is_appended_to_it] final(pager).events().len() > old(pager).events().len() ==> final(pager).events()[old(pager).events().len() as int] is Analysis,
+//@   [C08,C01:recovery.the_recovery_transaction_begins_once_and_after_the_analysis] r is Ok ==> final(pager).events() == old(pager).events().push(Ev::Analysis).push(Ev::Begin).push(Ev::Checkpoint),
 //@end
 
 } // verus!
